@@ -126,7 +126,8 @@ fn dec_context_default() -> DecContext {
 
 /// Converts a string into decimal.
 pub fn dec_from_string(s: &str) -> DecQuad {
-  let c_s = CString::new(s).unwrap();
+  // a text containing the NUL character is not a number, it is converted like the empty text, which gives NaN
+  let c_s = CString::new(s).unwrap_or_default();
   let mut value = DecQuad::default();
   unsafe {
     decQuadFromString(&mut value, c_s.as_ptr(), &mut DEFAULT_CONTEXT.clone());
